@@ -77,6 +77,11 @@ def fill_markdown(
 
     # Only format the content part if there's frontmatter
     if frontmatter:
+        if not content and sum(ln.strip() == "---" for ln in frontmatter.split("\n")) < 2:
+            # Unclosed frontmatter (no closing `---` line): the whole document is frontmatter
+            # and nothing should change, apart from ensuring a final newline, however often
+            # it is formatted.
+            return frontmatter if frontmatter.endswith("\n") else frontmatter + "\n"
         markdown_text = content
 
     if dedent_input:
